@@ -255,6 +255,13 @@ def _worker(args):
     return run_vu(vu, prop, seed, open_findings, start, split_at)
 
 
+COVER_KINDS = ("returns", "emitted", "accepted", "delivered", "done", "checked", "dropped", "loop-cut")
+
+
+def is_cover(outcome):
+    return isinstance(outcome, str) and outcome.split(":")[0] in COVER_KINDS
+
+
 def _merge(a, b):
     """Merge the result of a sub-tree exploration into the unit's result."""
     a["obligations"].extend(b["obligations"])
@@ -273,6 +280,8 @@ def _merge(a, b):
         a["error"] = b["error"]
     if not a.get("sample_smt2") and b.get("sample_smt2"):
         a["sample_smt2"] = b["sample_smt2"]
+    for key in ("executed", "by_contract"):
+        a[key] = sorted(set(a.get(key, [])) | set(b.get(key, [])))
 
 
 def lean_check(tier):
@@ -374,6 +383,23 @@ def run_check(prop, units, tier, seed, level, technique_text, trusted_base, repl
     for u, r in zip(units, results):
         if not r["obligations"] and not r["error"] and not r["undecided"] and not getattr(u, "may_be_empty", False):
             r["error"] = "unit produced zero obligations for %s (engine fault)" % prop
+
+    # cover guard (vacuity): the outcomes behind which a unit's obligations sit (normal return, datagram emitted, message
+    # accepted, loop continues ...) were reachable when covers.json was recorded; when one of them is unreachable now its
+    # obligations were not exercised and "all proved" would be vacuous for them: the unit is undecided
+    covers = {}
+    cpath = os.path.join(VERIF, "covers.json")
+    if os.path.exists(cpath):
+        with open(cpath) as fh:
+            covers = json.load(fh).get(prop, {})
+    for r in results:
+        base = covers.get(r["unit"])
+        if base and not r["error"] and not r["undecided"]:
+            now = {k for k in (r.get("outcomes") or {}) if is_cover(k)}
+            lost = sorted(set(base) - now)
+            if lost:
+                r["undecided"] = ("cover lost: the outcome(s) %s of this unit were reachable when covers.json was recorded and are "
+                                  "unreachable now, so the obligations behind them were not exercised" % ", ".join(lost))
 
     extra = []
     native_witness = None
